@@ -1,6 +1,7 @@
 // Scenario driver: executes operation histories against the real library and logs every
 // observable at the public boundary. It has no expectations about outcomes.
 #include "harness.hpp"
+#include <set>
 #include <trompeloeil/stream_tracer.hpp>
 #include <cstdarg>
 #include <cstring>
@@ -144,6 +145,7 @@ static std::map<int, std::unique_ptr<trompeloeil::sequence>> g_seqs;
 static std::map<int, ExpRec> g_exps;
 static std::vector<TracerRec> g_tracers;
 static bool g_autoq = false;
+static std::set<int> g_seq_husks;   // moved-from sequence objects: nothing may be asked of them
 
 static MockM* as_m(Obj& o) { return o.kind == 'M' ? o.m : (o.kind == 'W' ? static_cast<MockM*>(o.wm) : nullptr); }
 
@@ -225,7 +227,7 @@ static void autoq()
     H::emit("Q %d %d %d", kv.first, kv.second.e->is_satisfied() ? 1 : 0, kv.second.e->is_saturated() ? 1 : 0);
   }
   for (auto& kv : g_seqs)
-    H::emit("QS %d %d", kv.first, kv.second->is_completed() ? 1 : 0);
+    if (!g_seq_husks.count(kv.first)) H::emit("QS %d %d", kv.first, kv.second->is_completed() ? 1 : 0);
 }
 
 static void drain_tracers()
@@ -274,7 +276,7 @@ static void teardown_leftovers()
   g_exps.clear();
   for (auto& kv : g_objs) { delete kv.second.m; delete kv.second.n; delete kv.second.wm; delete kv.second.wp; }
   g_objs.clear();
-  g_seqs.clear();
+  g_seqs.clear(); g_seq_husks.clear();
 }
 
 static std::vector<std::string> split(std::string const& s)
@@ -380,7 +382,24 @@ int main()
       try { Guard g{&o}; throw 43; } catch (int) {}
     }
     else if (op == "seq") { g_seqs[I(1)] = std::make_unique<trompeloeil::sequence>(); }
-    else if (op == "rmseq") { if (!g_seqs.erase(I(1))) bad("rmseq", line); }
+    else if (op == "rmseq") { if (!g_seqs.erase(I(1))) bad("rmseq", line); g_seq_husks.erase(I(1)); }
+    else if (op == "mvseq")
+    {
+      // mvseq new old : sequence new(std::move(old)); old stays as a moved-from object
+      auto it = g_seqs.find(I(2));
+      if (it == g_seqs.end() || g_seqs.count(I(1))) bad("mvseq", line);
+      g_seqs[I(1)] = std::make_unique<trompeloeil::sequence>(std::move(*it->second));
+      g_seq_husks.insert(I(2));
+    }
+    else if (op == "asseq")
+    {
+      // asseq dst src : dst = std::move(src)
+      auto d = g_seqs.find(I(1)); auto s = g_seqs.find(I(2));
+      if (d == g_seqs.end() || s == g_seqs.end() || I(1) == I(2)) bad("asseq", line);
+      *d->second = std::move(*s->second);
+      g_seq_husks.erase(I(1));
+      g_seq_husks.insert(I(2));
+    }
     else if (op == "qseq") { H::emit("QS %d %d", I(1), g_seqs.at(I(1))->is_completed() ? 1 : 0); }
     else if (op == "exp")
     {
